@@ -34,7 +34,9 @@ def gen_case(seed, tier="quick"):
 
 
 def run_case(case):
-    return trainsim.run_c19(case)
+    # hermetic: every case starts from the same process image (see core/hermetic.py)
+    from ..core.hermetic import hermetic
+    return hermetic(trainsim.run_c19)(case)
 
 
 def shrink(case):
